@@ -13,6 +13,14 @@ import (
 	"verif/internal/rt"
 )
 
+// staleMock: scenarios in which an earlier run with OTHER flags (or for an older
+// source) left a mock at -out. The run-time properties are established for the
+// mock a command generates; this closes the gap to the mock that is on disk
+// afterwards (it must be that one, not the earlier one).
+func staleMock(s cli.Scenario) bool {
+	return (s.Prior == "ownstub" || s.Prior == "ownlong" || s.Prior == "ownnoop" || s.Prior == "older") && s.Out != "stdout" && s.Fault == "none" && s.Flag == "none"
+}
+
 func main() {
 	if len(os.Args) < 2 {
 		usage()
@@ -45,11 +53,11 @@ func check(prop, tier string) int {
 	var err error
 	switch prop {
 	case "C08":
-		code, err = rt.RunSeq(prop, tier, gen.ExtraC08(tier))
+		code, err = rt.RunSeq(prop, tier, gen.ExtraC08(tier), cli.Subset(prop, tier, staleMock))
 	case "C07":
-		code, err = rt.RunSeq(prop, tier, cli.Subset(prop, tier, func(s cli.Scenario) bool { return s.Prior == "ownstub" }))
+		code, err = rt.RunSeq(prop, tier, cli.Subset(prop, tier, func(s cli.Scenario) bool { return s.Prior == "ownstub" }), cli.FlagPlumbing(prop))
 	case "C03", "C04":
-		code, err = rt.RunSeq(prop, tier)
+		code, err = rt.RunSeq(prop, tier, cli.Subset(prop, tier, staleMock))
 	case "C16":
 		code, err = gen.RunGen(prop, tier, cli.Subset(prop, tier, func(s cli.Scenario) bool { return s.Prior == "ownnoop" || (s.Prior == "own" && s.Args == "ok") }), cli.FlagPlumbing(prop))
 	case "C14":
